@@ -1,10 +1,13 @@
 (* extraction of the executable C05 model. Z / positive are mapped to Zarith big integers (ExtrOcamlZBigInt):
    the model works over exact rationals whose numerators / denominators are the exact values of doubles. *)
 From Coq Require Import List ZArith QArith Extraction ExtrOcamlBasic ExtrOcamlZBigInt.
-From LN Require Import C05_Defs.
+From LN Require Import C05_Defs C05_Outer_Defs.
 Extraction Language OCaml.
 Extraction "extracted/c05_model.ml" qltb qmax qmin qabs dot vadd vscale vsub vnth unit_vec mv qsum
   is_equality is_linear_equality cvgrad eval1 evals linear_penalty quadratic_penalty augmented_lagrangian
   linear_penalty_at quadratic_penalty_at augmented_lagrangian_at pen_convex update_constraints linf kkt1 kkt2
   exact_rops criterion al_init al_step al_run al_step_criterion al_step_converged al_step_updated
-  Qred Qplus Qminus Qmult Qdiv Qopp Qle_bool Qeq_bool inject_Z.
+  Qred Qplus Qminus Qmult Qdiv Qopp Qle_bool Qeq_bool inject_Z
+  (* extension "outer" (C05_Outer_Defs) *)
+  qclamp qpow make_ro1 dx_converged next_lambda next_miu lagrangian_grad
+  alo_init alo_event alo_step alo_run alo_running ps_init ps_step ps_run ps_step_converged ps_running.
